@@ -30,27 +30,42 @@ type Outcome struct {
 type Func = func(src interface{}) ([]interface{}, error)
 
 // In-library clock: lets the worker's watchdog tell a library call that does not return from a slow
-// harness (generator, oracle). inFlight counts wrapped library calls in progress, since is when it
-// last went from 0 to 1.
-var (
-	inFlight int64
-	since    int64
-)
+// harness (generator, oracle). Every wrapped library call in progress occupies one slot holding its
+// start time; InLibraryFor is the age of the OLDEST call still in progress (so many short concurrent
+// calls never look like one long call).
+var slots [256]int64
+var slotHint uint32
 
-func libEnter() {
-	if atomic.AddInt64(&inFlight, 1) == 1 {
-		atomic.StoreInt64(&since, time.Now().UnixNano())
+func libEnter() int {
+	now := time.Now().UnixNano()
+	i := int(atomic.AddUint32(&slotHint, 1)) % len(slots)
+	for n := 0; n < len(slots); n++ {
+		if atomic.CompareAndSwapInt64(&slots[i], 0, now) {
+			return i
+		}
+		i = (i + 1) % len(slots)
+	}
+	return -1 // more than 256 concurrent calls: not tracked
+}
+
+func libExit(i int) {
+	if i >= 0 {
+		atomic.StoreInt64(&slots[i], 0)
 	}
 }
 
-func libExit() { atomic.AddInt64(&inFlight, -1) }
-
-// InLibraryFor reports for how long library calls have been continuously in progress (0 if none is).
+// InLibraryFor reports for how long the oldest library call still in progress has been running (0 if none).
 func InLibraryFor() time.Duration {
-	if atomic.LoadInt64(&inFlight) <= 0 {
+	oldest := int64(0)
+	for i := range slots {
+		if t := atomic.LoadInt64(&slots[i]); t != 0 && (oldest == 0 || t < oldest) {
+			oldest = t
+		}
+	}
+	if oldest == 0 {
 		return 0
 	}
-	return time.Duration(time.Now().UnixNano() - atomic.LoadInt64(&since))
+	return time.Duration(time.Now().UnixNano() - oldest)
 }
 
 func guard(o *Outcome) {
@@ -61,8 +76,7 @@ func guard(o *Outcome) {
 }
 
 func Retrieve(text string, src interface{}, cfg ...jsonpath.Config) (o Outcome) {
-	libEnter()
-	defer libExit()
+	defer libExit(libEnter())
 	defer guard(&o)
 	o.Res, o.Err = jsonpath.Retrieve(text, src, cfg...)
 	return
@@ -76,8 +90,7 @@ type ParseOutcome struct {
 }
 
 func Parse(text string, cfg ...jsonpath.Config) (o ParseOutcome) {
-	libEnter()
-	defer libExit()
+	defer libExit(libEnter())
 	defer func() {
 		if r := recover(); r != nil {
 			o.Panic = r
@@ -89,8 +102,7 @@ func Parse(text string, cfg ...jsonpath.Config) (o ParseOutcome) {
 }
 
 func Call(f Func, src interface{}) (o Outcome) {
-	libEnter()
-	defer libExit()
+	defer libExit(libEnter())
 	defer guard(&o)
 	o.Res, o.Err = f(src)
 	return
